@@ -547,7 +547,7 @@ def runOp (op : String) (args : List String) : String :=
   | "tsig.digest", [msg, oid, key, ttl, alg, ts, fudge, err, other, mac, timers] =>
     match unhex msg, unhex key, unhex alg, unhex other, unhex mac with
     | some msg, some key, some alg, some other, some mac =>
-      let v : TsigVars := ⟨key, ttl.toNat?.getD 0, alg, ts.toNat?.getD 0, fudge.toNat?.getD 0, err.toNat?.getD 0, other⟩
+      let v : TsigVars := ⟨key, ttl.toNat?.getD 0, alg, ts.toNat?.getD 0, fudge.toNat?.getD 0, err.toNat?.getD 0, other.length, other⟩
       hex (tsigDigest msg (oid.toNat?.getD 0) v mac (timers == "1"))
     | _, _, _, _, _ => "bad-op"
   | "tsig.time", [now, ts, fudge] => match now.toNat?, ts.toNat?, fudge.toNat? with
